@@ -3,10 +3,13 @@ package rules
 import (
 	"fmt"
 	"go/ast"
+	"go/constant"
 	"go/token"
 	"go/types"
 	"sort"
 	"strings"
+
+	"golang.org/x/tools/go/ssa"
 
 	"verif/internal/core"
 )
@@ -425,6 +428,8 @@ func c05(r *core.Report) {
 	r.Assumption("claim: the finite tables agree — the styles the document validator accepts per location, the cells each location's decoder handles, the prefix / delimiter constants it uses in each cell, and the location defaults — with the OpenAPI 3.0 style table (RFC 6570 reading of label without explode); that decoding inverts serialisation for every value (delimiters inside values, element counts, deepObject assembly, primitive parsing), presence/emptiness classification and the schema verdict are not decided")
 	c05Table(r)
 	c05Single(r)
+	c05DeepObject(r)
+	c05Narrow(r)
 	_ = p
 }
 
@@ -702,6 +707,258 @@ func c05Single(r *core.Report) {
 		}
 		if n == 0 {
 			r.Trivial("single:none", "-", "no direct read of Style/Explode outside package openapi3")
+		}
+	})
+}
+
+// c05DeepObject: which query keys belong to a deepObject parameter.
+func c05DeepObject(r *core.Report) {
+	p := r.Prog
+	info := p.Pkg("openapi3filter").TypesInfo
+	r.RunRule("C05.deepobject", "a deepObject parameter owns exactly the query keys `name[...]`: in urlValuesDecoder.DecodeObject's deepObject branch the test that lets a key through (the condition of the `continue` that skips foreign keys) anchors on the parameter name immediately followed by `[` — as an anchored regular expression `^<quoted name>\\[` or as a prefix test on name+\"[\"; a test on the bare name also captures the keys of every parameter whose name merely starts with this one", 1, func() {
+		fd := p.DeclOf("openapi3filter", "urlValuesDecoder.DecodeObject")
+		var paramObj types.Object
+		for _, fl := range fd.Type.Params.List {
+			for _, nm := range fl.Names {
+				o := info.Defs[nm]
+				if b, ok := o.Type().Underlying().(*types.Basic); ok && b.Kind() == types.String && paramObj == nil {
+					paramObj = o
+				}
+			}
+		}
+		ev := &c05Eval{info: info, paramObj: paramObj, vars: map[types.Object]string{}}
+		// the deepObject case clause
+		var clause *ast.CaseClause
+		ast.Inspect(fd.Body, func(n ast.Node) bool {
+			if cc, ok := n.(*ast.CaseClause); ok {
+				for _, e := range cc.List {
+					if s, ok := strConst(info, e); ok && s == "deepObject" {
+						clause = cc
+					}
+				}
+			}
+			return true
+		})
+		if clause == nil {
+			core.Fail("deepObject case not found")
+		}
+		// prefix a key must have to pass: from `if !TEST { continue }` inside the range over the query
+		var prefixes []string
+		n := 0
+		var evalTest func(e ast.Expr) (string, bool)
+		evalTest = func(e ast.Expr) (string, bool) {
+			c, ok := ast.Unparen(e).(*ast.CallExpr)
+			if !ok {
+				return "", false
+			}
+			callee := core.CalleeOf(info, c)
+			if callee == nil {
+				return "", false
+			}
+			switch {
+			case callee.Name() == "HasPrefix" && len(c.Args) == 2:
+				return ev.str(c.Args[1])
+			case callee.Name() == "MatchString" && len(c.Args) == 1:
+				sel, ok := c.Fun.(*ast.SelectorExpr)
+				if !ok {
+					return "", false
+				}
+				recv := ast.Unparen(sel.X)
+				if id, ok := recv.(*ast.Ident); ok {
+					if gv, ok := info.ObjectOf(id).(*types.Var); ok {
+						if init := p.GlobalInit(gv); init != nil {
+							recv = ast.Unparen(init)
+						}
+					}
+				}
+				mc, ok := recv.(*ast.CallExpr)
+				if !ok || len(mc.Args) != 1 {
+					return "", false
+				}
+				pat, ok := c05Pattern(ev, mc.Args[0])
+				if !ok || !strings.HasPrefix(pat, "^") {
+					return "", false
+				}
+				// literal prefix of the pattern
+				out := ""
+				rest := pat[1:]
+				for i := 0; i < len(rest); i++ {
+					ch := rest[i]
+					if ch == '\\' && i+1 < len(rest) {
+						out += string(rest[i+1])
+						i++
+						continue
+					}
+					if strings.ContainsRune(".*+?()[]{}|$", rune(ch)) {
+						break
+					}
+					out += string(ch)
+				}
+				return out, true
+			}
+			return "", false
+		}
+		for _, st := range clause.Body {
+			ast.Inspect(st, func(m ast.Node) bool {
+				ifs, ok := m.(*ast.IfStmt)
+				if !ok || len(ifs.Body.List) != 1 {
+					return true
+				}
+				br, ok := ifs.Body.List[0].(*ast.BranchStmt)
+				if !ok || br.Tok != token.CONTINUE {
+					return true
+				}
+				un, ok := ast.Unparen(ifs.Cond).(*ast.UnaryExpr)
+				if !ok || un.Op != token.NOT {
+					return true
+				}
+				if pre, ok := evalTest(un.X); ok {
+					n++
+					prefixes = append(prefixes, pre)
+				}
+				return true
+			})
+		}
+		if n == 0 {
+			r.Unknown("deepobject:key-filter", p.Pos(clause.Pos()), "no recognisable key filter (`if !match(key) { continue }`) in the deepObject branch")
+			return
+		}
+		okAll := true
+		for _, pre := range prefixes {
+			if pre != "<param>[" {
+				okAll = false
+			}
+		}
+		r.Check(okAll, "deepobject:key-filter", p.Pos(clause.Pos()), "keys are selected by the prefix name+\"[\"", fmt.Sprintf("keys are selected by the prefix %q instead of the parameter name followed by `[`: keys of another parameter whose name starts with this one are taken as properties of this one", strings.Join(prefixes, ", ")))
+	})
+}
+
+// c05Pattern evaluates a regular-expression source built from constants, the parameter name quoted
+// with regexp.QuoteMeta, and fmt.Sprintf with a constant format.
+func c05Pattern(ev *c05Eval, e ast.Expr) (string, bool) {
+	e = ast.Unparen(e)
+	if s, ok := ev.str(e); ok {
+		return s, true
+	}
+	c, ok := e.(*ast.CallExpr)
+	if !ok {
+		return "", false
+	}
+	callee := core.CalleeOf(ev.info, c)
+	if callee == nil {
+		return "", false
+	}
+	switch callee.Name() {
+	case "QuoteMeta":
+		if len(c.Args) == 1 {
+			return c05Pattern(ev, c.Args[0])
+		}
+	case "Sprintf":
+		if len(c.Args) >= 1 {
+			f, ok := ev.str(c.Args[0])
+			if !ok {
+				return "", false
+			}
+			out := ""
+			ai := 1
+			for i := 0; i < len(f); i++ {
+				if f[i] == '%' && i+1 < len(f) && (f[i+1] == 's' || f[i+1] == 'v') {
+					if ai >= len(c.Args) {
+						return "", false
+					}
+					a, ok := c05Pattern(ev, c.Args[ai])
+					if !ok {
+						return "", false
+					}
+					out += a
+					ai++
+					i++
+					continue
+				}
+				out += string(f[i])
+			}
+			return out, true
+		}
+	}
+	return "", false
+}
+
+// c05Narrow: parsed numbers are not silently wrapped.
+func c05Narrow(r *core.Report) {
+	p := r.Prog
+	p.BuildSSA()
+	r.RunRule("C05.narrow", "text that is not a serialisation of the declared type is rejected, not wrapped: every conversion of an integer obtained from strconv.ParseInt/ParseUint to a narrower integer type, in packages openapi3filter and openapi3, is of a value parsed with a bitSize that fits the target type (ParseInt(s, b, 32) before int32(v)); a wider parse followed by a narrowing conversion turns out-of-range input into a different in-range value", 1, func() {
+		n := 0
+		perFn := map[string]int{}
+		width := func(t types.Type) int {
+			b, ok := t.Underlying().(*types.Basic)
+			if !ok {
+				return 0
+			}
+			switch b.Kind() {
+			case types.Int8, types.Uint8:
+				return 8
+			case types.Int16, types.Uint16:
+				return 16
+			case types.Int32, types.Uint32:
+				return 32
+			case types.Int64, types.Uint64:
+				return 64
+			case types.Int, types.Uint:
+				return 32 // the narrowest int the code may be built for (GOARCH=386)
+			}
+			return 0
+		}
+		for _, fn := range p.RepoSSAFuncs() {
+			rel := ""
+			if fn.Pkg != nil {
+				rel = core.RelPkg(fn.Pkg.Pkg)
+			}
+			if rel != "openapi3filter" && rel != "openapi3" {
+				continue
+			}
+			for _, b := range fn.Blocks {
+				for _, in := range b.Instrs {
+					cv, ok := in.(*ssa.Convert)
+					if !ok {
+						continue
+					}
+					wt := width(cv.Type())
+					if wt == 0 {
+						continue
+					}
+					ex, ok := cv.X.(*ssa.Extract)
+					if !ok || ex.Index != 0 {
+						continue
+					}
+					call, ok := ex.Tuple.(*ssa.Call)
+					if !ok {
+						continue
+					}
+					sc := call.Common().StaticCallee()
+					if sc == nil || sc.Pkg == nil || sc.Pkg.Pkg.Path() != "strconv" || (sc.Name() != "ParseInt" && sc.Name() != "ParseUint") {
+						continue
+					}
+					n++
+					name := shortFn(fn)
+					perFn[name]++
+					key := fmt.Sprintf("narrow:%s#%d", name, perFn[name])
+					bits := 64
+					known := false
+					if c, ok := call.Common().Args[2].(*ssa.Const); ok && c.Value != nil {
+						if v, ok := constant.Int64Val(c.Value); ok {
+							bits, known = int(v), true
+							if bits == 0 {
+								bits = 32 // bitSize 0 means int
+							}
+						}
+					}
+					r.Check(known && bits <= wt, key, p.Pos(cv.Pos()), fmt.Sprintf("parsed with bitSize %d, converted to a %d-bit type", bits, wt), fmt.Sprintf("a number parsed with bitSize %d is converted to a %d-bit type: input outside the target range is wrapped instead of being rejected as not a value of the declared type", bits, wt))
+				}
+			}
+		}
+		if n == 0 {
+			core.Fail("no conversion of a parsed integer found (parsePrimitiveCase's int32 branch expected)")
 		}
 	})
 }
